@@ -387,6 +387,22 @@ Example orthogonal_family_bound_nonvacuous : Forall (fun v : list AQ => length v
   Forall (fun v => @dot_raw AQ v v <> zero) [[q 1 1; q 1 1]; [q 1 1; q (-1) 1]].
 Proof. exact exq_orth_family. Qed.
 
+(* the state invariant the next two theorems start from holds at every state of every run (cg_lens: the four vectors of the start state have length n;
+   cg_state_inv = sizes + the conjugacy invariant cgI of Proofs/IterCG.v, or "first iteration, nothing yet") *)
+Theorem cg_state_invariant : forall (A : SArith), FieldLaws (SA A) ->
+  forall n (mulA : list (T (SA A)) -> res (list (T (SA A)))), LinOp n mulA -> SymOp n mulA ->
+  forall tol normb s0 i s Rs Ps, cg_lens n s0 ->
+  cg_hist (cg_body mulA n tol normb) s0 i s Rs Ps -> cg_state_inv n mulA s0 i s Rs Ps.
+Proof. intros A FL n mulA LO SYM tol normb s0 i s Rs Ps. exact (cg_hist_inv FL n mulA LO SYM tol normb s0 i s Rs Ps). Qed.
+Check cg_state_invariant : forall (A : SArith), FieldLaws (SA A) ->
+  forall n (mulA : list (T (SA A)) -> res (list (T (SA A)))), LinOp n mulA -> SymOp n mulA ->
+  forall tol normb s0 i s Rs Ps, cg_lens n s0 ->
+  cg_hist (cg_body mulA n tol normb) s0 i s Rs Ps -> cg_state_inv n mulA s0 i s Rs Ps.
+Print Assumptions cg_state_invariant.
+Example cg_state_invariant_nonvacuous : LinOp 2 (@sp_mul AQ exq_s) /\ SymOp 2 (@sp_mul AQ exq_s) /\ @cg_lens SAQ 2 exq_s0 /\
+  exists s1 Rs Ps, @cg_hist SAQ exq_body exq_s0 2 s1 Rs Ps /\ Rs = [[q (-8) 1; q (-3) 1]].
+Proof. split; [exact exq_lin|]. split; [exact (sp_mul_SymOp AQ_RingLaws exq_s 2 exq_s_wf eq_refl eq_refl exq_s_sym)|]. exact exq_cg_hist. Qed.
+
 (* (a) over R, symmetric positive semi-definite A (PosSemi: 0 <= <v, A v>), xs any solution of A xs = b: from a state of a run
    (cg_state_inv: the invariant cg_hist_inv establishes for every state of every run; tracks: r = b - A x, residual_invariant_cg)
    one iteration moves x to x + alpha p where alpha MINIMISES t |-> |xs - (x + t p)|_A^2 (anorm2 e = <e, A e>), so the A-norm of
